@@ -478,26 +478,36 @@ func rulesSymmetrical(c *Ctx, r *Report, f *ssa.Function) {
 	r.check(okPaths && okVal && okRangeVal, "SYM", where, "stores pair and mirror", c.pos(f.Pos()), "every iteration stores the pair and its mirror image into the new map with the pair's own score", fmt.Sprintf("Symmetrical does not store exactly {k: v, flip(k): v} per entry (map updates: %d, original key: %d, mirrored key: %d, same original value into the fresh map: %v)", len(ups), nK, nF, okVal && okRangeVal))
 	// the mirrored key is {k[1], k[0]}
 	okFlip := false
-	instrs(f, func(in ssa.Instruction) {
-		al, ok := in.(*ssa.Alloc)
-		if !ok {
-			return
+	flipFns := []*ssa.Function{f}
+	for _, g := range c.calleesIn(f) {
+		// the mirrored key built by a helper of the package from the key: flipped(k)
+		if g.Pkg == f.Pkg && g.Blocks != nil && len(g.Params) == 1 && types.Identical(g.Params[0].Type(), g.Signature.Results().At(0).Type()) && g.Signature.Results().Len() == 1 {
+			flipFns = append(flipFns, g)
 		}
-		var el [2]string
-		for _, ref := range *al.Referrers() {
-			if ia, ok := ref.(*ssa.IndexAddr); ok {
-				k, _ := cInt(constVal(ia.Index))
-				for _, r2 := range *ia.Referrers() {
-					if st, ok := r2.(*ssa.Store); ok && k >= 0 && k < 2 {
-						el[k] = s.expr(st.Val).String()
+	}
+	for _, ff := range flipFns {
+		s := newSymb(ff)
+		instrs(ff, func(in ssa.Instruction) {
+			al, ok := in.(*ssa.Alloc)
+			if !ok {
+				return
+			}
+			var el [2]string
+			for _, ref := range *al.Referrers() {
+				if ia, ok := ref.(*ssa.IndexAddr); ok {
+					k, _ := cInt(constVal(ia.Index))
+					for _, r2 := range *ia.Referrers() {
+						if st, ok := r2.(*ssa.Store); ok && k >= 0 && k < 2 {
+							el[k] = s.expr(st.Val).String()
+						}
 					}
 				}
 			}
-		}
-		if strings.HasSuffix(el[0], "[1])") && strings.HasSuffix(el[1], "[0])") && strings.TrimSuffix(el[0], "[1])") == strings.TrimSuffix(el[1], "[0])") {
-			okFlip = true
-		}
-	})
+			if strings.HasSuffix(el[0], "[1])") && strings.HasSuffix(el[1], "[0])") && strings.TrimSuffix(el[0], "[1])") == strings.TrimSuffix(el[1], "[0])") {
+				okFlip = true
+			}
+		})
+	}
 	r.check(okFlip, "SYM", where, "mirror key", c.pos(f.Pos()), "the mirrored key is {k[1], k[0]}", "the mirrored key is not {k[1], k[0]}")
 	// panic exactly on: k[0] != k[1] && ok && v2 != v
 	var pn *ssa.Panic
@@ -964,6 +974,11 @@ func keyKind(k ssa.Value) string {
 			return "range key"
 		}
 	}
+	if cl, ok := k.(*ssa.Call); ok && len(cl.Call.Args) == 1 && keyKind(cl.Call.Args[0]) == "range key" {
+		if g := cl.Call.StaticCallee(); g != nil && g.Blocks != nil && g.Pkg != nil && strings.HasPrefix(g.Pkg.Pkg.Path(), modPath) {
+			return "mirrored" // built by a helper from the range key; what it builds is judged by the mirror-key rule
+		}
+	}
 	ld, ok := k.(*ssa.UnOp)
 	if !ok {
 		return ""
@@ -980,6 +995,13 @@ func keyKind(k ssa.Value) string {
 				if ex, ok := x.Val.(*ssa.Extract); ok {
 					if _, ok := ex.Tuple.(*ssa.Next); ok && ex.Index == 1 {
 						whole++
+					}
+				}
+				// the key built by a helper of the module from the range key: flip := flipped(k) — what the helper
+				// builds is judged by the mirror-key rule
+				if cl, ok := x.Val.(*ssa.Call); ok && len(cl.Call.Args) == 1 && keyKind(cl.Call.Args[0]) == "range key" {
+					if g := cl.Call.StaticCallee(); g != nil && g.Blocks != nil && g.Pkg != nil && strings.HasPrefix(g.Pkg.Pkg.Path(), modPath) {
+						return "mirrored"
 					}
 				}
 			}
